@@ -1,9 +1,11 @@
 \* deviation-tolerant: only used to classify a trace the strict configuration rejected
-\* (which named deviation of the pinned tree explains it) and to keep checking the rest of it
+\* (which named deviation of the pinned tree explains it) and to keep checking the rest of it.
+\* AllowSilentInit stays FALSE: that defect was repaired in /repo (930d13f); the driver sets it to TRUE
+\* only to NAME a violation should the old behaviour come back.
 SPECIFICATION TraceSpec
 CONSTANTS
   AllowDupStart = TRUE
-  AllowSilentInit = TRUE
+  AllowSilentInit = FALSE
   AllowDoubleError = TRUE
   SInsts = {}
   SIds = {}
